@@ -40,17 +40,20 @@ pub open spec fn join_spec(a: Comps, b: Comps) -> Comps {
 
 impl PathBuf {
     pub uninterp spec fn comps(&self) -> Comps;
+    // canonical(): the path's *string* is exactly the rendering of comps() -- one separator between components, no trailing
+    // separator, no `.` that components() would normalise away.  (PathBuf == is component-wise, so `../.` == `..`; the string differs.)
+    pub uninterp spec fn canonical(&self) -> bool;
     #[verifier::external_body]
     pub proof fn ax_std(&self) ensures std_comps(self.comps()) { }
 
     #[verifier::external_body]
-    pub fn new() -> (r: PathBuf) ensures r.comps() == Seq::<Component>::empty() { unimplemented!() }
+    pub fn new() -> (r: PathBuf) ensures r.comps() == Seq::<Component>::empty(), r.canonical() { unimplemented!() }
     #[verifier::external_body]
-    pub fn clone(&self) -> (r: PathBuf) ensures r.comps() == self.comps() { unimplemented!() }
+    pub fn clone(&self) -> (r: PathBuf) ensures r.comps() == self.comps(), r.canonical() == self.canonical() { unimplemented!() }
     #[verifier::external_body]
-    pub fn to_path_buf(&self) -> (r: PathBuf) ensures r.comps() == self.comps() { unimplemented!() }
+    pub fn to_path_buf(&self) -> (r: PathBuf) ensures r.comps() == self.comps(), r.canonical() == self.canonical() { unimplemented!() }
     #[verifier::external_body]
-    pub fn to_owned(&self) -> (r: PathBuf) ensures r.comps() == self.comps() { unimplemented!() }
+    pub fn to_owned(&self) -> (r: PathBuf) ensures r.comps() == self.comps(), r.canonical() == self.canonical() { unimplemented!() }
     #[verifier::external_body]
     pub fn as_ref(&self) -> (r: &PathBuf) ensures r.comps() == self.comps() { unimplemented!() }
     #[verifier::external_body]
@@ -60,9 +63,18 @@ impl PathBuf {
     #[verifier::external_body]
     pub fn components(&self) -> (r: Components) ensures r.rest() == self.comps(), std_comps(self.comps()) { unimplemented!() }
     #[verifier::external_body]
-    pub fn push(&mut self, c: Component) ensures final(self).comps() == push_spec(old(self).comps(), c) { unimplemented!() }
+    pub fn push(&mut self, c: Component)
+        ensures final(self).comps() == push_spec(old(self).comps(), c),
+                final(self).canonical() == (old(self).canonical() && !(c == Component::CurDir && old(self).comps().len() > 0))   // pushing "." onto a non-empty path leaves a redundant "/." in the string
+    { unimplemented!() }
     #[verifier::external_body]
-    pub fn pop(&mut self) -> (b: bool) ensures final(self).comps() == pop_spec(old(self).comps()) { unimplemented!() }
+    pub fn pop(&mut self) -> (b: bool) ensures final(self).comps() == pop_spec(old(self).comps()), old(self).canonical() ==> final(self).canonical() { unimplemented!() }
+    // Path::file_name(): the last component if it is a normal name
+    #[verifier::external_body]
+    pub fn file_name(&self) -> (r: Option<Name>)
+        ensures (self.comps().len() > 0 && self.comps().last() is Normal) ==> r == Some(self.comps().last()->Normal_0),
+                !(self.comps().len() > 0 && self.comps().last() is Normal) ==> r is None,
+    { unimplemented!() }
     #[verifier::external_body]
     pub fn is_absolute(&self) -> (b: bool) ensures b == is_abs(self.comps()) { unimplemented!() }
     #[verifier::external_body]
